@@ -842,6 +842,25 @@ pub fn gen_c09(rng: &mut Rng, thorough: bool) -> Vec<Tagged> {
             out.push((format!("{}-learn-earlystop", tag), Case::Net(spec2, NetCmd::Learn { data: data.clone(), val: Some((val2, rng.range(1, 2) as i32)), batch: 1, epochs: 6 })));
         }
     }
+    // validation sets beyond the internal chunk size (65, 70, 130, 200 samples) evaluated INSIDE learn: every
+    // validation sample is predicted with dropout off
+    for (k, &nv) in [65usize, 70, 130, 200].iter().enumerate() {
+        if !(thorough || k < 2) {
+            continue;
+        }
+        let mut spec = NetSpec::new(Sh::Flat(2).to_shape());
+        let d1 = Simple::Dense { out: 3, act: Act::Tanh, bias: true, dropout: Some(0.5) };
+        let d2 = Simple::Dense { out: 1, act: Act::Linear, bias: true, dropout: None };
+        spec.weights = Some(vec![LW::One(rand_w(rng, &d1, Sh::Flat(2), 2)), LW::One(rand_w(rng, &d2, Sh::Flat(3), 2))]);
+        spec.layers.push(LayerSpec::One(d1));
+        spec.layers.push(LayerSpec::One(d2));
+        spec.opt = Opt::SGD { lr: 0.05, decay: None };
+        spec.obj = Obj::MSE;
+        let data = rand_data(rng, 3, Sh::Flat(2), Sh::Flat(1), Obj::MSE);
+        let val = rand_data(rng, nv, Sh::Flat(2), Sh::Flat(1), Obj::MSE);
+        out.push((format!("dropout-learn-validation-{}", nv), Case::Net(spec.clone(), NetCmd::Learn { data, val: Some((val.clone(), 100)), batch: 2, epochs: 2 })));
+        out.push((format!("dropout-validate-in-training-{}", nv), Case::Net(spec, NetCmd::Validate { data: val, tol: 0.1, pre_training: true })));
+    }
     // degenerate dropout rates (1.0 and above: everything is dropped while training; 0.0: nothing is) on
     // every layer kind, at the top level and inside a feedback block: outside training they change nothing
     for (ri, &rate) in [1.0f32, 1.5, 0.0, 0.999_999_94].iter().enumerate() {
@@ -948,6 +967,25 @@ pub fn gen_c03_net(rng: &mut Rng, thorough: bool) -> Vec<Tagged> {
             let nd = rng.range(2, 4);
             let data = rand_data(rng, nd, input, outsh, Obj::MSE);
             out.push((format!("net-slots-{}-{}", spec.opt.kind(), kinds.join("+")), Case::Net(spec, NetCmd::Learn { data, val: None, batch: 1, epochs: 2 })));
+        }
+    }
+    // the unrolled copies of a feedback block each own their state slot (stateful optimizers, 2..4 loops,
+    // dense and convolutional blocks, three steps so that momentum has something to carry)
+    for r in 0..(if thorough { 48 } else { 12 }) {
+        let mut ob = GenOpts::default();
+        ob.wkind = 2;
+        ob.acts = vec![Act::Linear, Act::Tanh, Act::Sigmoid];
+        let loops = 2 + r % 3;
+        if let Some((mut spec, input, outsh)) = block_net(rng, &ob, r % 2 == 1, loops, false, false, [Acc::Mean, Acc::Add][r % 2], true) {
+            spec.opt = match r % 4 {
+                0 => Opt::SGDM { lr: 0.05, momentum: 0.9, dampening: 0.0, decay: None },
+                1 => Opt::Adam { lr: 0.01, b1: 0.9, b2: 0.999, eps: 1e-8, decay: None },
+                2 => Opt::AdamW { lr: 0.01, b1: 0.9, b2: 0.999, eps: 1e-8, decay: 0.01 },
+                _ => Opt::RMS { lr: 0.01, alpha: 0.9, eps: 1e-8, decay: None, momentum: Some(0.5), centered: r % 8 == 3 },
+            };
+            spec.obj = Obj::MSE;
+            let data = rand_data(rng, 3, input, outsh, Obj::MSE);
+            out.push((format!("net-slots-block-L{}-{}", loops, spec.opt.kind()), Case::Net(spec, NetCmd::Learn { data, val: None, batch: 1, epochs: 1 })));
         }
     }
     out
@@ -1251,6 +1289,21 @@ pub fn fals_c05(rng: &mut Rng, thorough: bool) -> crate::fals::Fals {
             let class = format!("schedule/{}{}", name, if built % 4 == 0 { "/feedback-inskips-L>=3" } else { "" });
             across_pools(&mut f, rng, &pools, reps, &spec, &cmd, &class, name, &descr);
         }
+    }
+    // a job with many parameters and large batches (batch x parameters > 2^22: 64 x 67 848)
+    {
+        let mut spec = NetSpec::new(Sh::Flat(256).to_shape());
+        let d1 = Simple::Dense { out: 256, act: Act::Tanh, bias: true, dropout: None };
+        let d2 = Simple::Dense { out: 8, act: Act::Linear, bias: true, dropout: None };
+        spec.weights = Some(vec![LW::One(rand_w(rng, &d1, Sh::Flat(256), 2)), LW::One(rand_w(rng, &d2, Sh::Flat(256), 2))]);
+        spec.layers.push(LayerSpec::One(d1));
+        spec.layers.push(LayerSpec::One(d2));
+        spec.opt = Opt::SGD { lr: 0.01, decay: None };
+        spec.obj = Obj::MSE;
+        let data = rand_data(rng, if thorough { 128 } else { 70 }, Sh::Flat(256), Sh::Flat(8), Obj::MSE);
+        let big_pools: Vec<usize> = if thorough { vec![1, 2, 4, 8, 16] } else { vec![1, 4, 8] };
+        let cmd = NetCmd::Learn { data, val: None, batch: 64, epochs: 2 };
+        across_pools(&mut f, rng, &big_pools, 2, &spec, &cmd, "schedule/learn/large-batch-x-parameters", "learn", "256->256->8 dense network, batch 64");
     }
     // arithmetic in the subnormal range (weights 1e-20 and 1e30, inputs k*1e-20, rate 1e-25): the floating-point
     // environment of the thread that happens to run a sample or the update must not matter
